@@ -203,7 +203,7 @@ package eventlogger
 //@   ensures C07/removed: !(t == "" || id == "" || !old(t in b.graphs)) ==> err == nil && !(id in view(b.graphs[t].roots.m)) && onlychanged("syncmap", b.graphs[t].roots.m) && (forall k PipelineID :: k != id ==> (k in view(b.graphs[t].roots.m)) == old(k in view(b.graphs[t].roots.m)) && view(b.graphs[t].roots.m)[k] == old(view(b.graphs[t].roots.m)[k]))
 //@   ensures C06/references-released: !(t == "" || id == "" || !old(t in b.graphs)) ==> (forall x NodeID :: (x in b.nodes) ==> b.nodes[x].referenceCount == old(b.nodes[x].referenceCount) - ((old(registeredPipelineLists(b, t, id, x)) && old(b.nodes[x].referenceCount) > 0) ? 1 : 0))
 //@   ensures C06/node-table-kept: (forall i NodeID :: (i in b.nodes) == old(i in b.nodes) && b.nodes[i] == old(b.nodes[i])) && (forall u *nodeUsage :: old(allocated(u)) ==> u.node == old(u.node) && u.registrationPolicy == old(u.registrationPolicy))
-//@   ensures graphs-untouched: forall u EventType :: (u in b.graphs) == old(u in b.graphs) && b.graphs[u] == old(b.graphs[u])
+//@   ensures C02+C07/graphs-and-their-thresholds-kept: (forall u EventType :: (u in b.graphs) == old(u in b.graphs) && b.graphs[u] == old(b.graphs[u])) && unchanged("graph.successThreshold") && unchanged("graph.successThresholdSinks")
 //@   ensures wf: wfGraphs(b) && wfNodes(b)
 //@   ensures wf-typed: wfpTyped(b)
 //@   ensures wf-links-a: wfpLinksA(b)
@@ -487,7 +487,7 @@ package eventlogger
 //@   ensures C06/last-reference-unregisters: err == nil ==> (forall x NodeID :: old(registeredPipelineLists(b, t, id, x)) && old(x in b.nodes) && old(b.nodes[x].referenceCount) <= 1 ==> !(x in b.nodes) && (old(b.nodes[x].node) != nil ==> (x in detached) && detached[x] == old(b.nodes[x].node)))
 //@   ensures C06/shared-nodes-stay-registered: err == nil ==> (forall x NodeID :: old(registeredPipelineLists(b, t, id, x)) && old(x in b.nodes) && old(b.nodes[x].referenceCount) > 1 ==> (x in b.nodes) && b.nodes[x] == old(b.nodes[x]) && b.nodes[x].referenceCount == old(b.nodes[x].referenceCount) - 1 && !(x in detached))
 //@   ensures C06/detached-were-registered: err == nil ==> (forall x NodeID :: (x in detached) ==> old(x in b.nodes) && !(x in b.nodes) && detached[x] == old(b.nodes[x].node) && detached[x] != nil)
-//@   ensures graphs-untouched: forall u EventType :: (u in b.graphs) == old(u in b.graphs) && b.graphs[u] == old(b.graphs[u])
+//@   ensures C02+C07/graphs-and-their-thresholds-kept: (forall u EventType :: (u in b.graphs) == old(u in b.graphs) && b.graphs[u] == old(b.graphs[u])) && unchanged("graph.successThreshold") && unchanged("graph.successThresholdSinks")
 //@   ensures wf: wfGraphs(b) && wfNodes(b)
 //@   ensures wf-typed: wfpTyped(b)
 //@   ensures wf-links-a: wfpLinksA(b)
@@ -504,6 +504,7 @@ package eventlogger
 
 //@ func (*Broker).RemovePipelineAndNodes(ctx, t, id) (ok, err)
 //@   requires b != nil && noLocksHeld() && wfGraphs(b) && wfNodes(b) && wfAllPipelines(b)
+//@   ensures C02+C07/graphs-and-their-thresholds-kept: (forall u EventType :: (u in b.graphs) == old(u in b.graphs) && b.graphs[u] == old(b.graphs[u])) && unchanged("graph.successThreshold") && unchanged("graph.successThresholdSinks")
 //@   ensures C05/false-is-noop: !ok ==> err != nil && unchanged("syncmap") && nodesUnchanged(b) && calls("Closer.Close") == old(calls("Closer.Close"))
 //@   ensures C06/unknown-pipeline-is-false: !(t != "" && id != "" && old(t in b.graphs) && old(id in view(b.graphs[t].roots.m))) ==> !ok
 //@   ensures C06/pipeline-removed: ok ==> !(id in view(b.graphs[t].roots.m)) && onlychanged("syncmap", b.graphs[t].roots.m)
